@@ -14,9 +14,9 @@ from tools.vlib import Outcome, sx
 from tools.props import c05, c05_types as T
 
 MANIFEST = {
-    "level_text": "Coq theorems (Properties/C18.v, no axioms) over the same faithful Gallina model as C05 (parse_type_structure, visitors with the type_mappings lookup in visit_custom, Zod visitor/schema builder, add_types_prefix) for every type, table, site and mode: C18_frame (if no custom name of the parsed structure is a key of the table, all five sites in both modes print byte for byte what they print without the table), C18_render_subst (the text rendered with the table is the text of the structure in which each mapped name is replaced by its target), C18_subst_plain (at parameter/field/channel sites the text denotes the README shape with every mapped name, at any depth, replaced by its target) on the complement of the recorded classes, with a computed refutation for the namespace-prefix class. Tied to /repo on every run by rendering every enumerated type with and without every table through the real code and comparing with the extracted model string for string; the extracted relational oracle is applied to the implementation's two texts.",
+    "level_text": "Coq theorems (Properties/C18.v, no axioms) over the same faithful Gallina model as C05 (repaired parse_type_structure, visitors with the type_mappings lookup in visit_custom, Zod visitor/schema builder, repaired add_types_prefix) for every type, table, site and mode: C18_frame (if no custom name of the parsed structure is a key of the table, all five sites in both modes print byte for byte what they print without the table), C18_render_subst (the text rendered with the table is the text of the structure in which each mapped name is replaced by its target), C18_subst_plain (at parameter/field/channel sites the text denotes the README shape with every mapped name, at any depth, replaced by its target; only premise: no union directly under a sequence, C05-1), and computed positive statements on the witnesses of the three repaired classes. Tied to /repo on every run by rendering every enumerated type with and without every table through the real code and comparing with the extracted model string for string; the extracted relational oracle is applied to the implementation's two texts.",
     "design_ref": "DESIGN.md section 5 C18",
-    "level_note": "Proved for all inputs: frame (all sites, both modes), substitution at the unqualified TypeScript sites. Return/event sites (add_types_prefix) and Zod schema sites: substitution is machine-checked only on bounded sweeps of the model (C18_sweep_depth1_partial in the property file; the depth-2 sweep is coq/Proofs/C18Sweep2.v, compiled by the thorough tier, kept out of the coqchk closure) and by the run-time oracle. The two parser classes are broader than the failures (a mapped name that survives as a whole comma-separated piece is still looked up; such cases pass). The clause 'N is never declared' concerns types.ts of a whole project and is NOT covered here (no project-level generation in this check); 'never referenced by name' is checked on the type text of the five sites only. Mapping keys are assumed to be custom type names as type_to_string prints them (PathBuf, DateTime<Utc>), targets in {string, number, boolean}.",
+    "level_note": "Proved for all inputs: frame (all sites, both modes), substitution at the unqualified TypeScript sites. Return/event sites (add_types_prefix) and Zod schema sites: substitution is machine-checked only on bounded sweeps of the model (C18_sweep_depth1_partial in the property file; the depth-2 sweep is coq/Proofs/C18Sweep2.v, compiled by the thorough tier, kept out of the coqchk closure) and by the run-time oracle; no defect class is left there after the repairs C05-4-prefix-composite and C05-2-3-top-level-commas (C18-1..3 fixed). The clause 'N is never declared' concerns types.ts of a whole project and is NOT covered here (no project-level generation in this check); 'never referenced by name' is checked on the type text of the five sites only. Mapping keys are assumed to be custom type names as type_to_string prints them (PathBuf, DateTime<Utc>), targets in {string, number, boolean}.",
     "technique": "Rocq/Coq proof over hand-written model + correspondence check (extracted OCaml vs Rust harness)"
 }
 
@@ -37,7 +37,7 @@ NAMES = ["PathBuf", "Uuid", "DateTime<Utc>"]
 TARGETS = ["string", "number", "boolean"]
 LEAVES18 = ["String", "i32", "PathBuf", "Uuid", "DateTime<Utc>", "User"]
 FILL18 = ["String", "PathBuf", "bool", "User"]
-KF_BY_CLASS = {"kf18_prefix_on_target": "C18-1", "kf18_tuple_elem_has_comma": "C18-2", "kf18_result_ok_has_comma": "C18-3"}
+KF_BY_CLASS = {}      # C18-1, C18-2, C18-3 were repaired (known_findings/C18.json holds fixed records only)
 
 
 def leaf18(s):
@@ -164,8 +164,9 @@ def evaluate(cases, want=None):
 
 
 def corpus_cases():
-    return [{"ty": T.parse(e["witness"]["rust_type"]), "mappings": e["witness"]["mappings"]}
-            for e in vlib.load_known_findings("C18")]
+    """witnesses of the remaining findings (none at present) and corpus/C18/*.json (the witnesses of the
+    repaired findings stay there as regression cases that must pass)"""
+    return [dict(c, mappings=c.get("mappings") or {}) for c in c05.corpus_cases("C18")]
 
 
 def run(rep):
